@@ -26,6 +26,8 @@ def run(ctx, rep):
     rep.rule('R10.9', 'what counts as the same constant: equality compares tags first, immediates by the whole word, heap values by content')
     from rules import shared as _sh, c15 as _c15
     _sh.check_object_eq(ctx.facts(), rep, 'R10.9', _c15.heap_types(ctx))
+    rep.rule('R10.10', 'where in the code an expression lands is unobservable: the jump placeholder is only written, never compared, so moving code by a few bytes (into a function, behind another statement) cannot turn a legal jump target into a refused one')
+    _sh.check_placeholder_write_only(ctx, rep, 'R10.10')
     rep.rule('R10.8', 'an expression statement is compiled the same way whatever kind of variable it assigns: its code always ends in Pop')
     from rules import c11 as _c11
     _c11.check_stmt_expr_pop(csa_run.analyse(ctx), rep, 'R10.8')
